@@ -12,7 +12,7 @@ def check(run, replay=None):
               "substituted from another session; message 1 / message 2 with undecodable 33-byte strings at instance 0, 255 and "
               "random positions (chosen and unchosen side); a point of message 1 replaced by another valid point (generator, "
               "identity, random). Every call of the three functions is compared with the extracted model: both messages byte for "
-              "byte, 512 sender keys, 256 receiver keys, choice bits, Ok/Err verdicts; non-trivial = all non-honest exchanges"),
+              "byte, 512 sender keys, 256 receiver keys, choice bits, Ok/Err verdicts; non-trivial = all non-honest exchanges Degenerate tapes: all-zero / all-one choice bits, zero 32-byte draws at ephemeral-scalar and r_other positions, draws equal to the group order (NonZeroScalar redraw), previously used (junk-filled) output buffers for about half of the session ids."),
         assumptions=["merlin framing is injective in (label, message) sequences (the model's oracle input is the structured "
                      "operation list)",
                      "k256 implements a prime-order group (group_laws) and GroupEncoding::{to_bytes,from_bytes} round-trips on "
